@@ -41,6 +41,13 @@ Statement grammar of a translated function body:
   self.<attr> = <bytes>[lo:hi]                          -> `<prefix>_<attr>_lo/_hi`
   return <name> | return self.lin(e) -> `<prefix>_lin_arg` | return e -> `<prefix>_return`
 
+Besides the definitions each output file carries: `<prefix>_layout` (what the function takes from
+the buffer, in order, with sizes), `<prefix>_<attr>_flags` (mask, name), `inputs` (for every
+definition the inputs it reads AS THE SOURCE WRITES THEM - `buffer[0]`, `m_tol = pop(1)`, `self.k2`,
+`int(round(raw))`; binder names are invisible to theorems about the definitions, this table is
+pinned by `gen_inputs`).  Module / class constants read off the AST are cross-checked against the
+imported module (`check_live`).
+
 Typing (Python ints are unbounded and signed; the Lean types say which range an expression can
 take): literals, popped bytes and bytes are `Nat`; `&,|,^,<<,>>` of two `Nat`s are the `Nat`
 operators; `+,*` keep the larger of the operand types (Nat < Int < Rat); `-` and unary `-` give
